@@ -48,6 +48,7 @@ impl<T> Future for ShellRequest<T> {
         self: std::pin::Pin<&mut Self>,
         cx: &mut std::task::Context<'_>,
     ) -> std::task::Poll<Self::Output> {
+        verif_point!("sr.poll");
         let mut shared_state = self.shared_state.lock().unwrap();
 
         // If there's still a request to send, take it and send it
@@ -101,6 +102,7 @@ where
                 return;
             };
 
+            verif_point!("sr.resolve");
             let mut shared_state = shared_state.lock().unwrap();
 
             // Attach the result to the shared state of the future
